@@ -128,6 +128,8 @@ func newEnv(p *hx.Plan) *env {
 			}
 		}
 	}
+	e.w.Downstream = hx.S(p.Params, "downstream")
+	e.w.TrackCatalog = hx.B(p.Params, "track_catalog")
 	e.tasks = hx.ML(p.Params, "tasks")
 	e.ops = hx.ML(p.Params, "ops")
 	e.opcur = map[string]int{}
@@ -429,6 +431,11 @@ func run(p *hx.Plan) []hx.Event {
 			ev["res"], ev["id"], ev["data"], ev["idx"] = res, hx.S(pk, "id"), data, cur+1
 			if res == "ok" {
 				e.cursor[v] = cur + 1
+				for _, mm := range hx.ML(pk, "msgs") {
+					if hx.S(mm, "k") == "dropc" { // the source dropped the collection: its catalog record says so from now on
+						e.w.MarkSrcDropped(e.collOf(v).Name)
+					}
+				}
 			}
 		case "readop": // the reader of task t (replicate channel) gets the next operation pack
 			task := hx.S(st, "task")
